@@ -512,7 +512,85 @@ def store_only_lower(key, m, i):
 
 
 # ------------------------------------------------------------------ the check
-def evaluate(chk, cases, failures, disagreements, spawn_check=0):
+def key_grams(k):
+    gs = {json.loads(k[1])["g"]}
+    if k[0] == "nest" and k[7] is not None:
+        gs.add(json.loads(k[7])["g"])
+    return gs
+
+
+def key_classes(k):
+    """the process-wide objects an evaluation shares with evaluations of other metamodels: its user classes"""
+    cs = set()
+    for c in [k[1]] + ([k[7]] if k[0] == "nest" and k[7] is not None else []):
+        c = json.loads(c)
+        cs |= {c["g"] + "/" + x for x in c.get("classes", [])}
+    return cs
+
+
+def fresh_eval(keys, batch):
+    """Fresh-state results for the keys.  Process creation dominates the run time, so up to `batch` evaluations share one
+    child forked from the pristine process - only evaluations with pairwise disjoint user classes: each builds its own
+    metamodel (own parser model, blueprint, repository) in slots of its own."""
+    groups = []
+    for k in keys:
+        gs = key_classes(k)
+        for g in groups:
+            if len(g["keys"]) < batch and not (g["grams"] & gs):
+                g["keys"].append(k)
+                g["grams"] |= gs
+                break
+        else:
+            groups.append({"keys": [k], "grams": set(gs)})
+    jobs, layout = [], []
+    for g in groups:
+        job = {"files": {}, "cfgs": [], "ops": []}
+        lay = []
+        for t, k in enumerate(g["keys"]):
+            j = fresh_job(k)
+            coff, soff = len(job["cfgs"]), 2 * t
+            for o in j["ops"]:
+                o = dict(o)
+                o["slot"] += soff
+                if o["op"] == "new":
+                    o["cfg"] += coff
+                if o.get("nest"):
+                    o["nest"] = dict(o["nest"], slot=o["nest"]["slot"] + soff)
+                job["ops"].append(o)
+            job["cfgs"] += j["cfgs"]
+            job["files"].update(j["files"])
+            lay.append((k, len(j["ops"]), soff))
+        jobs.append(job)
+        layout.append(lay)
+    outs = run_jobs(jobs)
+    fresh = {}
+    for lay, out in zip(layout, outs):
+        if isinstance(out, dict):
+            raise RuntimeError("runner error (fresh): %s" % out.get("runner_error"))
+        pos = 0
+        for k, n, soff in lay:
+            part = []
+            for x in out[pos:pos + n]:
+                x = dict(x)
+                st = dict(x["st"])
+                st["slots"] = {str(int(sl) - soff): v for sl, v in st["slots"].items() if soff <= int(sl) < soff + 2}
+                x["st"] = st
+                part.append(x)
+            fresh[k] = part
+            pos += n
+    return fresh, len(jobs)
+
+
+def fresh_view_of(outs, k):
+    """what the check uses of a fresh evaluation: results, events, files opened, repository contents, and the counters and
+    storage sizes of its own user classes"""
+    own = key_classes(k)
+    return [{"res": x["res"], "ev": x["ev"], "opened": x["opened"],
+             "repo": {s: v["repo"] for s, v in x["st"]["slots"].items()},
+             "store": {c: (v["instr"], v["store"]) for c, v in x["st"]["cls"].items() if c in own}} for x in outs]
+
+
+def evaluate(chk, cases, failures, disagreements, spawn_check=0, alone_check=0, batch=1):
     import time
     t0 = time.time()
     jobs = [job_of(c) for c in cases]
@@ -530,24 +608,32 @@ def evaluate(chk, cases, failures, disagreements, spawn_check=0):
                     need.setdefault(ik, None)
     with_load = {k[1] for k in need if k[0] == "load"}
     keys = sorted((k for k in need if k[0] != "new" or k[1] not in with_load), key=lambda k: json.dumps(k))
-    fouts = run_jobs([fresh_job(k) for k in keys])
-    fresh = dict(zip(keys, fouts))
+    fresh, nforks = fresh_eval(keys, batch)
     for k in keys:                       # the creation half of a [new, load] evaluation is the fresh creation result
         if k[0] == "load" and ("new", k[1]) in need and ("new", k[1]) not in fresh:
             fresh[("new", k[1])] = fresh[k][:1]
-    for k, v in fresh.items():
-        if isinstance(v, dict):
-            raise RuntimeError("runner error (fresh): %s" % v.get("runner_error"))
-    chk.stat("fresh evaluations (forked from a pristine process)", len(keys))
+    chk.stat("fresh evaluations", len(keys))
+    chk.stat("processes forked from a pristine process for them", nforks)
     chk.notes.append("fresh evaluations done at %.0fs" % (time.time() - t0))
-    # a few of the fresh evaluations again, each in its own newly started interpreter
+    # evaluations that shared a forked child (pairwise different grammars, hence different metamodels, user classes and
+    # parser models) are re-done for a sample, each alone in its own child; in thorough also in newly started interpreters
+    rs = chk.rng.split("spawn")
+    if batch > 1 and alone_check:
+        sample = rs.sample(keys, min(alone_check, len(keys)))
+        alone, _ = fresh_eval(sample, 1)
+        for k in sample:
+            chk.stat("fresh evaluations repeated alone in a forked child")
+            if fresh_view_of(alone[k], k) != fresh_view_of(fresh[k], k):
+                disagreements.append({"case": {"fresh": k}, "impl": fresh_view_of(alone[k], k), "model": fresh_view_of(fresh[k], k),
+                                      "what": "a fresh evaluation sharing a child with evaluations of other metamodels differs from the evaluation alone"})
     if spawn_check:
-        sample = chk.rng.split("spawn").sample(keys, min(spawn_check, len(keys)))
+        sample = rs.sample(keys, min(spawn_check, len(keys)))
         again = core.run_impl_parallel("c16", [{"jobs": [fresh_job(k)]} for k in sample])
         for k, a in zip(sample, again):
             chk.stat("fresh evaluations repeated in a newly started interpreter")
-            if [x["res"] for x in a[0]] != [x["res"] for x in fresh[k]] or [x["st"] for x in a[0]] != [x["st"] for x in fresh[k]]:
-                disagreements.append({"case": {"fresh": k}, "impl": a[0], "model": fresh[k], "what": "forked and spawned fresh evaluation differ"})
+            if fresh_view_of(a[0], k) != fresh_view_of(fresh[k], k):
+                disagreements.append({"case": {"fresh": k}, "impl": fresh_view_of(a[0], k), "model": fresh_view_of(fresh[k], k),
+                                      "what": "forked and spawned fresh evaluation differ"})
     ids = Ids()
     exprs, meta = [], []
     for c, outs in zip(cases, outs_all):
@@ -653,7 +739,8 @@ def run(chk):
         c["kind"] = "random"
         cases.append(c)
     cases += enum_cases(2) if chk.thorough else enum_cases(1)[::2]
-    evaluate(chk, cases, failures, disagreements, spawn_check=8 if chk.thorough else 1)
+    evaluate(chk, cases, failures, disagreements, spawn_check=8 if chk.thorough else 0, alone_check=8 if chk.thorough else 3,
+             batch=4 if chk.thorough else 6)
     chk.cov["rule"] = ("corpus + %d random histories over a pool of %d configurations drawn for the run (2-5 metamodel configurations per history incl. a twin sharing the user classes and an invalid grammar, 1-3 slots, "
                        "up to %d operations: creations and loads via string/file/string+filename over valid inputs and inputs failing at the parse, before and after the end "
                        "of construction and in a model processor; root values that are textX objects, primitives, other immutable values and plain objects) + all (quick: every second) "
